@@ -4,7 +4,7 @@
         (how the traceparent ctxt is held: plain, boxed / shared erased, AssertInternal-wrapped, or as the erased ctxt of an
          AmbientSlot runtime — the model is the same for all: wrappers are transparent, property C03)
         P ::= event | (span P…) | (spant P…) | (spana P…) | (push (TRACE SPAN FLAGS) P…) | (carry P…) | (root P…)
-            | (pushs TS P…) | (pushb (TRACE SPAN FLAGS) TS P…)      TS ::= N (0 = the empty tracestate; text "sN")
+            | (pushs TS P…) | (pushb (TRACE SPAN FLAGS) TS P…) | (spanp P…) | (pushp (TRACE SPAN FLAGS) P…)      TS ::= N (0 = the empty tracestate; text "sN")
         TRACE, SPAN ::= none | N with N ≥ 1000000 (ids that arrive in headers; rng-drawn ids are the counter 1,2,3…)
     → the observation log, oldest first, then `calls=N cur=(T S F)`
 -/
@@ -32,6 +32,13 @@ mutual
 partial def prog? : Sexp → Option Prog
   | .atom "event" => some .event
   | .list (.atom "span" :: cs) => (progs? cs).map Prog.span
+  -- a span / pushed header whose scope is left by a PANIC (caught right outside): unwinding drops the guard inside
+  -- the frame and exits the frame like a normal return, so the model is the same program (`restore_after`)
+  | .list (.atom "spanp" :: cs) => (progs? cs).map Prog.span
+  | .list (.atom "pushp" :: tp :: cs) => do
+    let tp ← tp? tp
+    let cs ← progs? cs
+    pure (.push tp cs)
   | .list (.atom "spant" :: cs) => (progs? cs).map Prog.spanThread
   | .list (.atom "spana" :: cs) => (progs? cs).map Prog.spanAsync
   | .list (.atom "carry" :: cs) => (progs? cs).map Prog.carry
